@@ -321,7 +321,9 @@ func runC09Case(seed int64, idx int) *c09Result {
 	}
 	cancel()
 	if !ended {
-		run.C.Close()
+		if !run.CloseWithin(8 * time.Second) {
+			fail("close-blocks", "Close() did not return within 8 s")
+		}
 		run.WaitResult(10 * time.Second)
 	}
 	if writerDone != nil {
